@@ -29,11 +29,11 @@ func init() {
 	Register(&Property{
 		ID:             "C12",
 		Run:            runC12,
-		Rule:           "runs = one (now, offset) configuration (incl. stalled rotation thread with now-offset up to 4500, restart with catch-up and traffic injected during the catch-up loop) x 40-200 hostile inputs (datagrams at window/acceptance edges, TCP sessions of 0-100 request bytes, HTTP requests over 9 routes x 5 methods x hostile queries and bodies incl. correctly signed structures with extreme fields) x peer fault policy (refused / timeout / 503 / served) x 0-6 idle or half-sent sync connections at Close(); after every input: no handler panic, a liveness probe is answered, every mutex is free; Close() must return within 2 x serverShutdownTime of simulated time; non-trivial = inputs of at least three families and one peer fault or idle connection; distinct = distinct decision signatures",
+		Rule:           "runs = one (now, offset) configuration (incl. stalled rotation thread with now-offset up to 4500, restart with catch-up and traffic injected during the catch-up loop) x 40-200 hostile inputs (datagrams at window/acceptance edges, TCP sessions of 0-100 request bytes, HTTP requests over 9 routes x 5 methods x hostile queries and bodies incl. correctly signed structures with extreme fields) x peer fault policy (refused / timeout / 503 / served; at Close() possibly one forward hanging on a peer that accepted and never answers) x 0-6 idle or half-sent sync connections at Close(); after every input: no handler panic, a liveness probe is answered, every mutex is free; Close() must return within 2 x serverShutdownTime of simulated time; non-trivial = inputs of at least three families and one peer fault or idle connection; distinct = distinct decision signatures",
 		Real:           []string{"all nine HTTP handlers incl. JSON decoding", "report handler", "sync handler incl. its connection reads", "forwarding to peers through http.Post", "NewGCAServer incl. catch-up loop", "Close()/thread group"},
 		Stub:           []string{"kernel sockets and the three accept loops; net/http's own connection handling (which would swallow a handler panic) - handlers are called with a recover wrapper that is the panic witness", "NASA / WattTime services: unreachable (connection refused) in this flavour"},
 		Assumptions:    []string{"GCA-signed authorizations never assign one public key to two live ids", "responses of the external NASA / WattTime services are not part of the untrusted inputs the property lists"},
-		RequiredProbes: []string{"c12.stalled-late", "c12.catchup-traffic", "c12.idle-conn-at-close", "c12.peer-fault", "c12.http.hostile", "c12.tcp.partial", "c12.datagram.window-end", "c12.signed-extreme"},
+		RequiredProbes: []string{"c12.stalled-late", "c12.catchup-traffic", "c12.idle-conn-at-close", "c12.peer-fault", "c12.http.hostile", "c12.tcp.partial", "c12.datagram.window-end", "c12.signed-extreme", "c12.silent-peer-at-close"},
 		RequiredSites:  []string{"migrate.catchup", "listen.udp", "sync.between"},
 	})
 }
@@ -252,6 +252,23 @@ func runC12(m *Sim) {
 		m.Probe("nontrivial")
 	}
 
+	// ---- a forward that hangs on a silent peer while the server shuts down --------
+	silentForwards := 0
+	if m.C.Chance("silent-peer-at-close", 1, 3) {
+		// A live peer is listed (or the server itself); the next forward to it is
+		// accepted and never answered. The request that forwards stays in
+		// flight; Close() must still return in bounded time.
+		n.PostJSON("/api/v1/authorized-servers", SignServer(gca, server.AuthorizedServer{PublicKey: Key("silent-peer").Pub, Location: n.Loc, HttpPort: n.HTTP, TcpPort: n.TCP, UdpPort: n.UDP}))
+		w.HTTPPolicy = func(from, to string, req *http.Request) HTTPAction { return HTTPAction{Kind: 4} }
+		d := &Device{Role: "late-dev", ID: h.NextID + 500, Key: Key("late-dev")}
+		body, _ := json.Marshal(StdAuth(gca, d.ID, d.Key, 1000))
+		n.RequestAsync("auth-silent", "POST", "/api/v1/authorize-equipment", body, &HTTPResult{})
+		w.Settle()
+		silentForwards = m.Faults["http.silent"]
+		if silentForwards > 0 {
+			m.Probe("c12.silent-peer-at-close")
+		}
+	}
 	// ---- shutdown with idle connections -----------------------------------
 	if len(idle) > 0 {
 		m.Probe("c12.idle-conn-at-close")
@@ -267,7 +284,7 @@ func runC12(m *Sim) {
 		w.Advance(100 * time.Millisecond)
 	}
 	if !closeTask.Done() {
-		m.Fail("C12.close", fmt.Sprintf("idle=%d", min(len(idle), 1)), "Close() has not returned %v of simulated time after it was called with %d idle or half-sent sync connections open (bound 2 x serverShutdownTime)", bound, len(idle))
+		m.Fail("C12.close", fmt.Sprintf("idle=%d/silent=%d", min(len(idle), 1), min(silentForwards, 1)), "Close() has not returned %v of simulated time after it was called with %d idle or half-sent sync connections open and %d forwards waiting for a peer that never answers (bound 2 x serverShutdownTime)", bound, len(idle), silentForwards)
 	}
 	if closeTask.Panic != nil {
 		m.Fail("C12.panic", "close", "Close panicked: %v\n%s", closeTask.Panic, closeTask.Stack)
